@@ -26,7 +26,9 @@
                                                    + ASan/UBSan on the real code
   "never more than 16384 hosts per range"          range_limit / _partial / _false    every text
                                                    create_count_le (≤ 16384·|s| hosts every text, every cfg
-                                                   for the whole call)
+                                                   for the whole call), create_good,
+                                                   create_walk (counter exact, the
+                                                   walk ends after `count` names)
   "unbalanced brackets … make the parse fail"      unbalanced_einval, token_ok_iff    every token, repaired
                                                    unmatched_open/close_einval        every cfg
   "reversed … ranges make the parse fail"          reversed_einval, item_invalid_iff, every item text
@@ -53,6 +55,7 @@ import PdshVerif.Hostlist.LemmasRepaired
 import PdshVerif.Hostlist.LemmasLimits
 import PdshVerif.Hostlist.LemmasAccept
 import PdshVerif.Hostlist.LemmasBounds
+import PdshVerif.Hostlist.LemmasGood
 
 namespace PdshVerif.C15
 open PdshVerif.Hostlist PdshVerif.Gen
@@ -438,6 +441,22 @@ theorem ranges_in_bounds (cfg : Cfg) (e : Nat) (body : Str) (rs : Array SR) (e' 
 theorem create_count_le (cfg : Cfg) (s : Str) (h : HL) (hc : create cfg s = .ok h) :
     h.count ≤ (MAX_RANGE * s.length : Nat) :=
   Hostlist.create_count_le cfg s h hc
+
+/-- EVERY ACCEPTED TEXT YIELDS A WELL-FORMED LIST (D15/D25 repaired): every range record has
+    lo ≤ hi < 2^64-1 and the cached counter `hostlist_count` equals the number of denoted hosts —
+    no wrapped, empty or "negative" record can come out of the parser, whatever was typed -/
+theorem create_good (cfg : Cfg) (h15 : cfg.fixUlongMax = true) (s : Str) (h : HL)
+    (hc : create cfg s = .ok h) : h.Good :=
+  Hostlist.create_good cfg h15 s h hc
+
+/-- WALKING WHAT WAS ACCEPTED (every text; with C01's iteration theorem): `hostlist_next` until
+    NULL yields exactly the denoted hosts and stops after `hostlist_count` of them, which is at
+    most 16384 · (text length) -/
+theorem create_walk (cfg : Cfg) (h15 : cfg.fixUlongMax = true) (h17 : cfg.fixIterSuffix = true)
+    (s : Str) (h : HL) (hc : create cfg s = .ok h) (n : Nat) (hn : h.hosts.length ≤ n) :
+    iterAll cfg h n = h.hosts ∧ h.count = h.hosts.length ∧
+      h.hosts.length ≤ MAX_RANGE * s.length :=
+  Hostlist.create_walk cfg h15 h17 s h hc n hn
 
 /-- TERMINATION, tokenizer: the fuel the model passes (text length + 1) always suffices … -/
 theorem tokens_fuel_suffices (sep s : Str) (f : Nat) (hf : s.length < f) :
